@@ -58,6 +58,9 @@ type thread struct {
 	lock   *LockState
 }
 
+// MapPerm selects the iteration order of the map ranges the instrumenter owns (see verifMapOrder).
+var MapPerm int
+
 var (
 	Mode int32
 
